@@ -145,7 +145,8 @@ theorem EnginePair.nodupC {nnc n cs gs fC fG sC sG} (h : EnginePair nnc n cs gs 
 
 theorem EnginePair.permC {nnc n cs cs' gs fC fG sC sG} (h : EnginePair nnc n cs gs fC fG sC sG)
     (hp : cs'.Perm cs) (sC' sG' : BitMat)
-    (hsG' : fG = true → SatCorrect (gs.map (toL nnc)) (cs'.map (toL nnc)) sG'.rows) :
+    (hsG' : fG = true →
+      SatCorrect (gs.map (toL nnc)) (cs'.map (toL nnc)) sG'.rows ∧ sG'.ncols = gs.length) :
     EnginePair nnc n cs' gs false fG sC' sG' := by
   have hnd := h.nodupC
   have hnd' : cs'.Nodup := hp.nodup_iff.mpr hnd
